@@ -33,12 +33,15 @@ RULE = ("template sets: (a) random compositions of state-carrying snippets (name
 
 MODES = ["sync", "sandbox", "async", "sync-auto", "immutable", "native"]
 ENTRY = ["render"]
+CUR_MODE = ["sync"]
 
 
 # regression groups run first (group 0 with template-level globals, group 1 with the module cache in use)
 FIXED_GROUPS = [
     ["{% import 'lib2.html' as L2 %}{{ L2.show() }}{{ L2.tv }}|{{ tg.k }}", "{% set nsd = namespace(d) %}{% set nsd.k = 'changed' %}{{ nsd.k }}|{{ d|tojson }}",
      "{{ d|tojson(indent=2) }}|{{ lists|sum(start=acc) }}", "{% from 'lib2.html' import show %}{{ show() }}|{{ nested|tojson }}|{{ words|indent(2) if false else lines|indent(2) }}"],
+    ["{% import 'mdef.html' as D %}{{ D.acc(1) }}{{ D.acc(2) }}{{ D.reg('k') }}", "{% from 'mdef.html' import acc %}{{ acc(5) }}",
+     "{% for x in plaingen() %}{{ x }}{% endfor %}", "{{ legacy(2) }}{{ legacy(nums[0]) + 1 }}"],
     ["{% import 'lib3.html' as M %}{{ M.ft(zero) }}", "{% import 'lib3.html' as M %}{{ M.h(text) }}{{ M.ff(2) }}",
      "{% import 'cnt.html' as C %}{{ C.nxt() }}", "{% import 'lib.html' as L %}{{ L.m(nums) }}{{ L.v }}|{% include 'inc.html' %}"],
 ]
@@ -160,6 +163,7 @@ def run(ctx):
             USE_TPL_GLOBALS[0] = (gi % 2 == 0)
             ENTRY[0] = ["render", "render", "generate", "module"][gi % 4]
             for mode in MODES:
+                CUR_MODE[0] = mode
                 for n in reversed(names):
                     data, eg, tg = inputs_for(tg_data)
                     out = render(make_env(jinja2, mode, templates, eg), n, data, tg)
@@ -185,6 +189,7 @@ job = json.loads(sys.stdin.read())
 tg_data = eval(job["tg_data"]) if job["tg_data"] else None
 c29.USE_TPL_GLOBALS[0] = job.get("use_tpl", True)
 c29.ENTRY[0] = job.get("entry", "render")
+c29.CUR_MODE[0] = job["mode"]
 data, eg, tg = c29.inputs_for(tg_data)
 print(json.dumps(c29.render(c29.make_env(jinja2, job["mode"], job["templates"], eg), job["name"], data, tg)))
 """
@@ -194,12 +199,15 @@ def fresh_process_refs(ctx, groups, refs):
     """a sample of the isolated renders repeated in a brand-new interpreter (one process per render): the only place
     where state shared by all environments of a process (module / class level) cannot hide"""
     import json
-    jobs = []
+    jobs, prio = [], []
     for gi, (templates, names, tg_data) in enumerate(groups):
         for n in names:
-            if "import" in templates[n] or "include" in templates[n] or "tojson" in templates[n] or n.startswith("g_"):
+            if "legacy(" in templates[n] or "plaingen(" in templates[n]:
+                prio.append((gi, "async", n))          # process-wide memo tables of the async helpers
+            elif "import" in templates[n] or "include" in templates[n] or "tojson" in templates[n] or n.startswith("g_"):
                 jobs.append((gi, MODES[(gi + len(jobs)) % 3], n))
     ctx.rng.shuffle(jobs)
+    jobs = prio[:6] + jobs
     for gi, mode, n in jobs[: ctx.size(14, 80)]:
         templates, names, tg_data = groups[gi]
         job = {"templates": templates, "mode": mode, "name": n, "tg_data": repr(tg_data) if tg_data else None, "use_tpl": gi % 2 == 0,
@@ -559,6 +567,7 @@ USE_TPL_GLOBALS = [True]
 
 
 def inputs_for(tg_data, variant=0):
+    FC.ASYNC_DATA[0] = (CUR_MODE[0] == "async")
     data, eg, tg = FC.make_inputs()
     if not USE_TPL_GLOBALS[0]:
         eg = dict(eg, **tg)
@@ -574,6 +583,7 @@ def inputs_for(tg_data, variant=0):
 def oracle_group(ctx, jinja2, templates, names, tg_data, mode, gi):
     USE_TPL_GLOBALS[0] = (gi % 2 == 0)
     ENTRY[0] = ["render", "render", "generate", "module"][gi % 4]
+    CUR_MODE[0] = mode
     # reference: each template alone on a fresh environment with fresh inputs
     ref = {}
     for n in names:
@@ -709,6 +719,7 @@ def replay(ctx, data):
     templates, mode = case["templates"], case["mode"]
     USE_TPL_GLOBALS[0] = case.get("use_tpl", True)
     ENTRY[0] = case.get("entry", "render")
+    CUR_MODE[0] = mode
     names = case["template"].split(",")
     if case.get("phase") == "fresh process":
         import json
